@@ -642,3 +642,63 @@ def inline_new_helpers(tree, rel):
     ast.fix_missing_locations(tree)
     return sorted((c + '.' if c else '') + n for c, n in helpers) \
         if inl.count else []
+
+
+# ---------------------------------------------------------------------------
+# import aliases
+# ---------------------------------------------------------------------------
+_MODULE_CANON = {'numpy': 'np', 'pandas': 'pd'}
+
+
+def canonical_imports(tree):
+    """`from m import f as g` -> every `g` reads `f`; `import numpy` /
+    `import numpy as xp` -> `np`.  Rules resolve calls by name, so an alias
+    must not change what they see.  Only applied when the canonical name is
+    free in the module (not bound by another import, def, class or
+    assignment)."""
+    bound = set()
+    for n in ast.walk(tree):
+        if isinstance(n, (ast.FunctionDef, ast.AsyncFunctionDef,
+                          ast.ClassDef)):
+            bound.add(n.name)
+        elif isinstance(n, ast.Name) and isinstance(n.ctx, (ast.Store,
+                                                            ast.Del)):
+            bound.add(n.id)
+        elif isinstance(n, ast.arg):
+            bound.add(n.arg)
+    imported = {}
+    for n in ast.walk(tree):
+        if isinstance(n, (ast.Import, ast.ImportFrom)):
+            for al in n.names:
+                imported.setdefault(al.asname or al.name.split('.')[0],
+                                    []).append((n, al))
+    rename = {}
+    for n in ast.walk(tree):
+        if isinstance(n, ast.ImportFrom):
+            for al in n.names:
+                if al.asname and al.asname != al.name and \
+                        al.name not in bound and \
+                        al.name not in imported and al.name != '*':
+                    rename[al.asname] = al.name
+        elif isinstance(n, ast.Import):
+            for al in n.names:
+                canon = _MODULE_CANON.get(al.name)
+                cur = al.asname or al.name
+                if canon and cur != canon and canon not in bound and \
+                        canon not in imported and '.' not in cur:
+                    rename[cur] = canon
+    rename = {k: v for k, v in rename.items() if k not in bound}
+    if not rename:
+        return 0
+    cnt = 0
+    for n in ast.walk(tree):
+        if isinstance(n, ast.Name) and n.id in rename:
+            n.id = rename[n.id]
+            cnt += 1
+        elif isinstance(n, (ast.Import, ast.ImportFrom)):
+            for al in n.names:
+                cur = al.asname or al.name
+                if cur in rename:
+                    al.asname = rename[cur] if isinstance(
+                        n, ast.Import) else None
+    return cnt
